@@ -89,7 +89,7 @@ pub fn key_of_len(rng: &mut Rng, n: usize) -> Vec<u8> {
 
 /// C12: producers with the default partitioner over random metadata; explicit / keyed / keyless records,
 /// interleaved over several topics, unknown topics, leaderless partitions, counter presets near the wrap.
-pub fn gen_c12(rng: &mut Rng, d: &mut Dist) -> Vec<String> {
+pub fn gen_c12(rng: &mut Rng, d: &mut Dist, _idx: u64) -> Vec<String> {
     let maxp = *rng.pick(&[1u64, 2, 3, 5, 8, 16, 64]);
     let cl = Cluster::random(rng, maxp, true);
     let mut out = cl.setup_lines();
@@ -177,7 +177,7 @@ pub fn opt_tok(b: &Option<Vec<u8>>) -> String {
 }
 
 /// C03: `produce_messages` with explicit partitions, every payload shape, every codec, 1-3 topics x partitions.
-pub fn gen_c03(rng: &mut Rng, d: &mut Dist) -> Vec<String> {
+pub fn gen_c03(rng: &mut Rng, d: &mut Dist, _idx: u64) -> Vec<String> {
     let cl = Cluster::random(rng, 4, false);
     let mut out = cl.setup_lines();
     out.push(format!("OP client_new {}", cl.bootstrap()));
@@ -221,7 +221,7 @@ fn extreme_i32(rng: &mut Rng) -> i64 {
 
 /// C09: every public client operation with generated arguments: names of length 0/1/32767/32768/40000 (rare),
 /// i32/i64 extremes, empty lists, many topics x partitions, every client setting.
-pub fn gen_c09(rng: &mut Rng, d: &mut Dist) -> Vec<String> {
+pub fn gen_c09(rng: &mut Rng, d: &mut Dist, _idx: u64) -> Vec<String> {
     let maxp = *rng.pick(&[1u64, 2, 4, 4, 40]);
     let cl = Cluster::random(rng, maxp, true);
     let mut out = cl.setup_lines();
@@ -426,7 +426,7 @@ impl Cluster {
 
 /// C10: arbitrary well-formed content through every response type: unusual node ids / ports / UTF-8 names,
 /// extreme offsets and high-watermarks, committed offsets incl. none, several brokers, response orders.
-pub fn gen_c10(rng: &mut Rng, d: &mut Dist) -> Vec<String> {
+pub fn gen_c10(rng: &mut Rng, d: &mut Dist, _idx: u64) -> Vec<String> {
     let maxp = *rng.pick(&[1u64, 3, 5]);
     let mut cl = Cluster::random_wild(rng, maxp, true);
     // −1 as a node id would read as "no leader": avoid it (documented protocol meaning)
@@ -525,7 +525,7 @@ pub fn error_code(rng: &mut Rng, d: &mut Dist) -> i64 {
 }
 
 /// C11: every response kind with an error code injected on one partition at a random position among healthy ones.
-pub fn gen_c11(rng: &mut Rng, d: &mut Dist) -> Vec<String> {
+pub fn gen_c11(rng: &mut Rng, d: &mut Dist, _idx: u64) -> Vec<String> {
     let cl = Cluster::random(rng, 4, false);
     let mut out = cl.setup_lines();
     for t in &cl.topics {
@@ -635,5 +635,66 @@ pub fn gen_c11(rng: &mut Rng, d: &mut Dist) -> Vec<String> {
             out.push(format!("OP send {} {} - aa", h(&victim_t.name), victim_p));
         }
     }
+    out
+}
+
+/// C14: answer scripts over {ok, loading(14), not-coordinator(16), coordinator-not-available(15), fatal} for the three
+/// group operations x retry limits 0..5 x coordinator moving between brokers; zero back-off.
+/// The first 3 * 6 * (5 + 25 + 125) indices enumerate all scripts of length <= 3 exhaustively; later ones are random (length <= 6).
+pub fn gen_c14(rng: &mut Rng, d: &mut Dist, idx: u64) -> Vec<String> {
+    let answers = [0i64, 14, 16, 15, 29];
+    let exhaustive = 3 * 6 * (5 + 25 + 125);
+    let (opk, n, script): (u64, u64, Vec<i64>) = if idx < exhaustive {
+        let mut i = idx;
+        let opk = i % 3;
+        i /= 3;
+        let n = i % 6;
+        i /= 6;
+        let (len, mut code) = if i < 5 { (1, i) } else if i < 30 { (2, i - 5) } else { (3, i - 30) };
+        let mut sc = Vec::new();
+        for _ in 0..len {
+            sc.push(answers[(code % 5) as usize]);
+            code /= 5;
+        }
+        bump(d, "exhaustive-len<=3");
+        (opk, n, sc)
+    } else {
+        let len = 1 + rng.below(6);
+        bump(d, &format!("random-len-{}", len));
+        (rng.below(3), rng.below(6), (0..len).map(|_| *rng.pick(&answers)).collect())
+    };
+    let mut cl = Cluster::random(rng, 3, false);
+    if cl.brokers.len() < 2 {
+        cl.brokers.push((2, "b2".into(), 9092));
+    }
+    let mut out = cl.setup_lines();
+    out.push(format!("OP client_new {}", cl.bootstrap()));
+    out.push(format!("OP c set storage {}", rng.pick(&["zk", "kafka"])));
+    out.push("OP c set retry_backoff_ms 0".into());
+    out.push(format!("OP c set retry_max {}", n));
+    out.push("OP c load_metadata_all".into());
+    bump(d, &format!("limit-{}", n));
+    let t = &cl.topics[0];
+    // optionally warm the coordinator cache, then move the coordinator to another broker
+    let moved = rng.chance(1, 3);
+    if moved {
+        out.push(format!("OP c fetch_group_offsets {} {} 0", h("grp"), h(&t.name)));
+        out.push(format!("COORD {}", cl.brokers[1].0));
+        bump(d, "coordinator-moved");
+    }
+    let codes: Vec<String> = script.iter().map(|c| c.to_string()).collect();
+    // where the script applies: the operation's own answers, or the coordinator look-ups
+    let target = if rng.chance(1, 4) { 10 } else if opk == 0 { 8 } else { 9 };
+    // a 15 on a commit/fetch answer is not retryable there (fatal); keep it, the spec says so too
+    out.push(format!("SCRIPT {} {}", target, codes.join(" ")));
+    bump(d, &format!("script-on-api-{}", target));
+    match opk {
+        0 => out.push(format!("OP c commit_offsets {} {} 0 5", h("grp"), h(&t.name))),
+        1 => out.push(format!("OP c fetch_group_offsets {} {} 0", h("grp"), h(&t.name))),
+        _ => out.push(format!("OP c fetch_group_topic_offset {} {}", h("grp"), h(&t.name))),
+    }
+    // a follow-up call: must still work and go to the right coordinator
+    out.push(format!("SCRIPT {}", target));
+    out.push(format!("OP c fetch_group_offsets {} {} 0", h("grp"), h(&t.name)));
     out
 }
